@@ -582,7 +582,7 @@ func TestC08Stepwise(t *testing.T) {
 }
 
 func TestC08Epochs(t *testing.T) {
-	runProp(t, "C08", "epochs", 300, 6000, genScenario(ScenarioCfg{MaxEpochs: pick(12, 30), FitnessKinds: []string{"distinct", "distinct", "stagnating"}, Parallel: 1}), CheckC08Epochs)
+	runProp(t, "C08", "epochs", 300, 6000, genScenario(ScenarioCfg{MaxEpochs: pick(12, 30), FitnessKinds: []string{"distinct", "distinct", "stagnating"}, Parallel: 1, Warm: true}), CheckC08Epochs)
 }
 
 func init() {
